@@ -1,0 +1,33 @@
+//go:build verif
+
+// Machine-checked contracts (comment-only; compiled only under the build tag "verif").
+// Read by /verif/govc; see /verif/DESIGN.md section 4 for the contract language.
+package control
+
+//@ define ios_scaled(v, total, up) = scaled(v.Type, v.IntVal, v.StrVal, total, up)
+//@ define ios_ok(v) = scaledOk(v.Type, v.StrVal)
+
+//@ func CalculateBatchReplicas
+//@ props C01 C07 C11
+//@ requires release != nil
+//@ requires 0 <= currentBatch && currentBatch < len(release.Spec.ReleasePlan.Batches)
+//@ requires 0 <= workloadReplicas
+//@ ensures bounds: 0 <= result && result <= workloadReplicas
+//@ ensures spec: result == clamp(ios_scaled(release.Spec.ReleasePlan.Batches[currentBatch].CanaryReplicas, workloadReplicas, true), 0, workloadReplicas)
+//@ pure
+
+//@ func ParseIntegerAsPercentageIfPossible
+//@ props C01 C07
+//@ replay parse_pct
+//@ requires canaryReplicas != nil
+//@ ensures kind: result.Type == 1 && isPct(result.StrVal)
+//@ ensures full: stableReplicas >= allReplicas ==> result.StrVal == "100%"
+//@ ensures none: stableReplicas <= 0 && stableReplicas < allReplicas ==> result.StrVal == "0%"
+//@ ensures {C01} slack: 0 < stableReplicas && stableReplicas < allReplicas ==> 100*(stableReplicas - ios_scaled(result, allReplicas, true)) < allReplicas
+//@ ensures {C07} suffices: 0 < stableReplicas && stableReplicas < allReplicas ==> ios_scaled(result, allReplicas, true) <= stableReplicas
+//@ pure
+
+//@ func IsCurrentMoreThanOrEqualToDesired
+//@ props C01
+//@ ensures result == (ios_scaled(current, 10000000, true) >= ios_scaled(desired, 10000000, true))
+//@ pure
